@@ -118,6 +118,8 @@ pub trait Drv: Send + Sync {
     /// get_mut; with `write`, the value's id is overwritten in place
     fn get_mut(&self, k: u64, write: Option<u64>) -> Option<Seen>;
     fn get_ttl(&self, k: u64) -> Option<Duration>;
+    /// look-up whose guard (ValueRef, or ValueRefMut with `mutable`) stays alive while `hold` runs
+    fn get_hold(&self, k: u64, mutable: bool, hold: &(dyn Fn() + Sync)) -> Option<Seen>;
     fn try_remove(&self, k: u64) -> Result<(), String>;
     fn wait(&self) -> Result<(), String>;
     fn clear(&self) -> Result<(), String>;
@@ -205,6 +207,23 @@ impl Drv for SyncDrv {
     }
     fn get_ttl(&self, k: u64) -> Option<Duration> {
         self.0.get_ttl(&k)
+    }
+    fn get_hold(&self, k: u64, mutable: bool, hold: &(dyn Fn() + Sync)) -> Option<Seen> {
+        if mutable {
+            self.0.get_mut(&k).map(|r| {
+                let v = r.value();
+                let seen = Seen { id: v.id, key: v.key, aux: v.aux, ttl: Duration::ZERO };
+                hold();
+                seen
+            })
+        } else {
+            self.0.get(&k).map(|r| {
+                let v = r.value();
+                let seen = Seen { id: v.id, key: v.key, aux: v.aux, ttl: r.ttl() };
+                hold();
+                seen
+            })
+        }
     }
     fn try_remove(&self, k: u64) -> Result<(), String> {
         self.0.try_remove(&k).map_err(err)
@@ -531,6 +550,25 @@ impl Drv for AsyncDrv {
     }
     fn get_ttl(&self, k: u64) -> Option<Duration> {
         self.0.get_ttl(&k)
+    }
+    fn get_hold(&self, k: u64, mutable: bool, hold: &(dyn Fn() + Sync)) -> Option<Seen> {
+        self.bo(async {
+            if mutable {
+                self.0.get_mut(&k).await.map(|r| {
+                    let v = r.value();
+                    let seen = Seen { id: v.id, key: v.key, aux: v.aux, ttl: Duration::ZERO };
+                    hold();
+                    seen
+                })
+            } else {
+                self.0.get(&k).await.map(|r| {
+                    let v = r.value();
+                    let seen = Seen { id: v.id, key: v.key, aux: v.aux, ttl: r.ttl() };
+                    hold();
+                    seen
+                })
+            }
+        })
     }
     fn try_remove(&self, k: u64) -> Result<(), String> {
         self.bo(self.0.try_remove(&k)).map_err(err)
